@@ -4,8 +4,12 @@ import (
 	"bytes"
 	"fmt"
 	"go/ast"
+	"go/parser"
 	"go/printer"
 	"go/token"
+	"os"
+	"path/filepath"
+	"sort"
 	"strings"
 )
 
@@ -132,23 +136,30 @@ func genWebRtcSession() (string, error) {
 	if count["transport_quic.ListenSession"] != 1 || count["transport_quic.DialSession"] != 1 {
 		return "", fmt.Errorf("session.go: executeLink does not contain exactly one ListenSession and one DialSession call")
 	}
-	// is s.peerID ever reassigned in the package's session.go?
+	// is a tracker's peerID / peerPub / offerer ever reassigned anywhere in the package?
+	// (assignments through a receiver named `w` are to the transport's own fields)
 	reassigned := 0
-	ast.Inspect(ses, func(n ast.Node) bool {
-		if as, ok := n.(*ast.AssignStmt); ok {
-			for _, l := range as.Lhs {
-				if se, ok := l.(*ast.SelectorExpr); ok && (se.Sel.Name == "peerID" || se.Sel.Name == "peerPub" || se.Sel.Name == "offerer") {
-					if exprString(fset2, se.X) != "w" {
-						reassigned++
+	pkgFiles, err := wrtcPackage()
+	if err != nil {
+		return "", err
+	}
+	for _, pf := range pkgFiles {
+		ast.Inspect(pf.f, func(n ast.Node) bool {
+			if as, ok := n.(*ast.AssignStmt); ok {
+				for _, l := range as.Lhs {
+					if se, ok := l.(*ast.SelectorExpr); ok && (se.Sel.Name == "peerID" || se.Sel.Name == "peerPub" || se.Sel.Name == "offerer") {
+						if exprString(pf.fset, se.X) != "w" {
+							reassigned++
+						}
 					}
 				}
 			}
-		}
-		return true
-	})
+			return true
+		})
+	}
 	q := func(s string) string { return "\"" + strings.ReplaceAll(strings.ReplaceAll(s, "\\", "\\\\"), "\"", "\\\"") + "\"" }
 	var sb strings.Builder
-	sb.WriteString(header("WebRtcSession", "transport/webrtc/signal.go, transport/webrtc/session.go"))
+	sb.WriteString(header("WebRtcSession", "transport/webrtc/signal.go, session.go, handler.go, webrtc.go and a scan of the whole package"))
 	fmt.Fprintf(&sb, "/-- `SignalingCryptContext` -/\ndef signalingCryptContext : List UInt8 := %s\n\n", leanBytes([]byte(ctx)))
 	fmt.Fprintf(&sb, "/-- context argument of `peer.EncryptToPubKey` in `EncodeWebRtcSignal` -/\ndef encodeContextArg : String := %s\n", q(ctxArg["peer.EncryptToPubKey"]))
 	fmt.Fprintf(&sb, "/-- context argument of `peer.DecryptWithPrivKey` in `DecodeWebRtcSignal` -/\ndef decodeContextArg : String := %s\n\n", q(ctxArg["peer.DecryptWithPrivKey"]))
@@ -158,6 +169,9 @@ func genWebRtcSession() (string, error) {
 	fmt.Fprintf(&sb, "def defPeerID : String := %s\ndef defOfferer : String := %s\ndef defLocalPeerIDStr : String := %s\n\n", q(assign["peerID"]), q(assign["offerer"]), q(assign["localPeerIDStr"]))
 	fmt.Fprintf(&sb, "/-- `executeLink`: the expected remote peer passed to the Quic session constructors -/\ndef listenExpectedPeer : String := %s\ndef dialExpectedPeer : String := %s\n", q(expected["transport_quic.ListenSession"]), q(expected["transport_quic.DialSession"]))
 	fmt.Fprintf(&sb, "/-- number of assignments to a tracker's `peerID` / `peerPub` / `offerer` field after construction -/\ndef trackerFieldReassignments : Nat := %d\n", reassigned)
+	if err := genWebRtcHandlerFacts(&sb, q); err != nil {
+		return "", err
+	}
 	sb.WriteString(footer("WebRtcSession"))
 	return sb.String(), nil
 }
@@ -168,4 +182,529 @@ func mapStr(l []string, f func(string) string) []string {
 		out[i] = f(l[i])
 	}
 	return out
+}
+
+// ---------------------------------------------------------------------------------------------
+// handler.go / webrtc.go / session.go (execute, executeXmitSignal) / whole-package scans
+
+type wrtcFile struct {
+	name  string
+	fset  *token.FileSet
+	f     *ast.File
+	verif bool // carries a //go:build verif constraint
+}
+
+// wrtcPackage parses every non-test, non-generated file of transport/webrtc.
+func wrtcPackage() ([]wrtcFile, error) {
+	dir := filepath.Join(repo, "transport/webrtc")
+	ents, err := os.ReadDir(dir)
+	if err != nil {
+		return nil, err
+	}
+	var out []wrtcFile
+	for _, e := range ents {
+		n := e.Name()
+		if e.IsDir() || !strings.HasSuffix(n, ".go") || strings.HasSuffix(n, "_test.go") || strings.HasSuffix(n, ".pb.go") {
+			continue
+		}
+		fset := token.NewFileSet()
+		f, err := parser.ParseFile(fset, filepath.Join(dir, n), nil, parser.ParseComments)
+		if err != nil {
+			return nil, err
+		}
+		verif := false
+		for _, cg := range f.Comments {
+			if cg.Pos() < f.Package {
+				for _, c := range cg.List {
+					if strings.HasPrefix(c.Text, "//go:build") && strings.Contains(c.Text, "verif") && !strings.Contains(c.Text, "!verif") {
+						verif = true
+					}
+				}
+			}
+		}
+		out = append(out, wrtcFile{n, fset, f, verif})
+	}
+	return out, nil
+}
+
+// wrtcMethod finds `func (x *recv) name(...)` (or a plain function when recv == "").
+func wrtcMethod(files []wrtcFile, recv, name string) (*wrtcFile, *ast.FuncDecl) {
+	for i := range files {
+		for _, d := range files[i].f.Decls {
+			fd, ok := d.(*ast.FuncDecl)
+			if !ok || fd.Name.Name != name {
+				continue
+			}
+			if recv == "" {
+				if fd.Recv == nil {
+					return &files[i], fd
+				}
+				continue
+			}
+			if fd.Recv == nil || len(fd.Recv.List) != 1 {
+				continue
+			}
+			t := fd.Recv.List[0].Type
+			if se, ok := t.(*ast.StarExpr); ok {
+				t = se.X
+			}
+			if id, ok := t.(*ast.Ident); ok && id.Name == recv {
+				return &files[i], fd
+			}
+		}
+	}
+	return nil, nil
+}
+
+// wrtcCalls returns the calls in n whose callee prints as one of names.
+func wrtcCalls(fset *token.FileSet, n ast.Node, names ...string) []*ast.CallExpr {
+	var out []*ast.CallExpr
+	ast.Inspect(n, func(x ast.Node) bool {
+		if c, ok := x.(*ast.CallExpr); ok {
+			s := exprString(fset, c.Fun)
+			for _, nm := range names {
+				if s == nm || strings.HasSuffix(s, "."+nm) {
+					out = append(out, c)
+				}
+			}
+		}
+		return true
+	})
+	return out
+}
+
+func wrtcArgs(fset *token.FileSet, c *ast.CallExpr) []string {
+	out := make([]string, len(c.Args))
+	for i, a := range c.Args {
+		out[i] = exprString(fset, a)
+	}
+	return out
+}
+
+// wrtcDefs: for every assignment / short declaration `a, b := rhs` in n, name -> list of rhs texts
+// (one entry per assignment statement naming it).
+func wrtcDefs(fset *token.FileSet, n ast.Node) map[string][]string {
+	out := map[string][]string{}
+	ast.Inspect(n, func(x ast.Node) bool {
+		switch as := x.(type) {
+		case *ast.AssignStmt:
+			for i, l := range as.Lhs {
+				id, ok := l.(*ast.Ident)
+				if !ok || id.Name == "_" {
+					continue
+				}
+				rhs := ""
+				if len(as.Rhs) == len(as.Lhs) {
+					rhs = exprString(fset, as.Rhs[i])
+				} else if len(as.Rhs) == 1 {
+					rhs = exprString(fset, as.Rhs[0])
+				}
+				out[id.Name] = append(out[id.Name], rhs)
+			}
+		case *ast.ValueSpec:
+			for i, id := range as.Names {
+				if i < len(as.Values) {
+					out[id.Name] = append(out[id.Name], exprString(fset, as.Values[i]))
+				}
+			}
+		}
+		return true
+	})
+	return out
+}
+
+// wrtcReturnsErr: the block is a single `return …` whose last result is not the literal nil.
+func wrtcReturnsErr(fset *token.FileSet, b *ast.BlockStmt) bool {
+	if b == nil || len(b.List) != 1 {
+		return false
+	}
+	rs, ok := b.List[0].(*ast.ReturnStmt)
+	if !ok || len(rs.Results) == 0 {
+		return false
+	}
+	return exprString(fset, rs.Results[len(rs.Results)-1]) != "nil"
+}
+
+// wrtcReturnsNothing: the block is `return nil, nil`.
+func wrtcReturnsNothing(fset *token.FileSet, b *ast.BlockStmt) bool {
+	if b == nil || len(b.List) != 1 {
+		return false
+	}
+	rs, ok := b.List[0].(*ast.ReturnStmt)
+	if !ok || len(rs.Results) != 2 {
+		return false
+	}
+	return exprString(fset, rs.Results[0]) == "nil" && exprString(fset, rs.Results[1]) == "nil"
+}
+
+func one(what string, l []string) (string, error) {
+	if len(l) != 1 {
+		return "", fmt.Errorf("%s: expected exactly one definition, found %d (%v)", what, len(l), l)
+	}
+	return l[0], nil
+}
+
+func genWebRtcHandlerFacts(sb *strings.Builder, q func(string) string) error {
+	files, err := wrtcPackage()
+	if err != nil {
+		return err
+	}
+	ql := func(l []string) string { return "[" + strings.Join(mapStr(l, q), ", ") + "]" }
+	emit := func(doc, name, val string) {
+		fmt.Fprintf(sb, "/-- %s -/\ndef %s : String := %s\n", doc, name, q(val))
+	}
+	emitL := func(doc, name string, val []string) {
+		fmt.Fprintf(sb, "/-- %s -/\ndef %s : List String := %s\n", doc, name, ql(val))
+	}
+	sb.WriteString("\n/-! ### handler.go: `handleSignalPeerResolver.Resolve` -/\n\n")
+	hf, res := wrtcMethod(files, "handleSignalPeerResolver", "Resolve")
+	if res == nil {
+		return fmt.Errorf("handler.go: handleSignalPeerResolver.Resolve not found")
+	}
+	if hf.name != "handler.go" {
+		return fmt.Errorf("handleSignalPeerResolver.Resolve moved to %s", hf.name)
+	}
+	rd := wrtcDefs(hf.fset, res.Body)
+	rp, err := one("Resolve: remotePeerID", rd["remotePeerID"])
+	if err != nil {
+		return err
+	}
+	rps, err := one("Resolve: remotePeerIDStr", rd["remotePeerIDStr"])
+	if err != nil {
+		return err
+	}
+	emit("`remotePeerID := …` (the only assignment to it)", "resolveRemotePeerID", rp)
+	emit("`remotePeerIDStr := …` (the only assignment to it)", "resolveRemotePeerIDStr", rps)
+	dec := wrtcCalls(hf.fset, res.Body, "DecodeWebRtcSignal")
+	if len(dec) != 1 {
+		return fmt.Errorf("Resolve: expected one DecodeWebRtcSignal call, found %d", len(dec))
+	}
+	emitL("arguments of the `DecodeWebRtcSignal` call", "resolveDecodeArgs", wrtcArgs(hf.fset, dec[0]))
+	dataDef, err := one("Resolve: data", rd["data"])
+	if err != nil {
+		return err
+	}
+	emit("where the decoded bytes come from (`data, err := …`)", "resolveDataSource", dataDef)
+	adds := wrtcCalls(hf.fset, res.Body, "addSessionTrackerRef")
+	if len(adds) != 1 {
+		return fmt.Errorf("Resolve: expected one addSessionTrackerRef call, found %d", len(adds))
+	}
+	emit("receiver and method of the tracker lookup", "resolveAddRefCallee", exprString(hf.fset, adds[0].Fun))
+	emitL("arguments of the `addSessionTrackerRef` call", "resolveAddRefArgs", wrtcArgs(hf.fset, adds[0]))
+	// the assignment statement that call sits in
+	var addLhs []string
+	ast.Inspect(res.Body, func(x ast.Node) bool {
+		if as, ok := x.(*ast.AssignStmt); ok && len(as.Rhs) == 1 && as.Rhs[0] == ast.Expr(adds[0]) {
+			for _, l := range as.Lhs {
+				addLhs = append(addLhs, exprString(hf.fset, l))
+			}
+		}
+		return true
+	})
+	emitL("left-hand side of that call's assignment", "resolveAddRefLhs", addLhs)
+	emitL("every assignment to `tkr` in Resolve (right-hand sides)", "resolveTkrDefs", rd["tkr"])
+	sigDef, err := one("Resolve: sig", rd["sig"])
+	if err != nil {
+		return err
+	}
+	emit("`sig, err := …` (the only assignment to it)", "resolveSigSource", sigDef)
+	var sends []string
+	keys := map[string]bool{}
+	ast.Inspect(res.Body, func(x ast.Node) bool {
+		switch v := x.(type) {
+		case *ast.SendStmt:
+			sends = append(sends, exprString(hf.fset, v.Chan)+" <- "+exprString(hf.fset, v.Value))
+		case *ast.IndexExpr:
+			if strings.HasSuffix(exprString(hf.fset, v.X), "incomingSessions") {
+				keys[exprString(hf.fset, v.Index)] = true
+			}
+		case *ast.CallExpr:
+			if id, ok := v.Fun.(*ast.Ident); ok && id.Name == "delete" && len(v.Args) == 2 && strings.HasSuffix(exprString(hf.fset, v.Args[0]), "incomingSessions") {
+				keys[exprString(hf.fset, v.Args[1])] = true
+			}
+		}
+		return true
+	})
+	emitL("channel sends in Resolve", "resolveSends", sends)
+	var kl []string
+	for k := range keys {
+		kl = append(kl, k)
+	}
+	sort.Strings(kl)
+	emitL("keys used with `incomingSessions` in Resolve", "resolveIncomingKeys", kl)
+
+	sb.WriteString("\n/-! ### handler.go: `resolveHandleSignalPeer` -/\n\n")
+	_, rh := wrtcMethod(files, "WebRTCSignalHandler", "resolveHandleSignalPeer")
+	if rh == nil {
+		return fmt.Errorf("handler.go: resolveHandleSignalPeer not found")
+	}
+	var guards []string
+	for _, st := range rh.Body.List {
+		if is, ok := st.(*ast.IfStmt); ok {
+			if is.Init != nil || is.Else != nil {
+				return fmt.Errorf("resolveHandleSignalPeer: unsupported guard shape")
+			}
+			// a guard may log before returning: the last statement must be `return nil, nil`
+			last := &ast.BlockStmt{List: is.Body.List[len(is.Body.List)-1:]}
+			if !wrtcReturnsNothing(hf.fset, last) {
+				return fmt.Errorf("resolveHandleSignalPeer: a guard does not end with `return nil, nil`")
+			}
+			guards = append(guards, exprString(hf.fset, is.Cond))
+		}
+	}
+	emitL("guards (each returns no resolver), in order", "handleGuards", guards)
+	hd := wrtcDefs(hf.fset, rh.Body)
+	for _, n := range []string{"localPeerID", "localPeerIDStr", "actualLocalPeerIDStr", "remotePeerIDStr"} {
+		v, err := one("resolveHandleSignalPeer: "+n, hd[n])
+		if err != nil {
+			return err
+		}
+		emit("`"+n+" := …`", "handle"+strings.ToUpper(n[:1])+n[1:], v)
+	}
+	resFields := map[string]string{}
+	ast.Inspect(rh.Body, func(x ast.Node) bool {
+		if cl, ok := x.(*ast.CompositeLit); ok && exprString(hf.fset, cl.Type) == "handleSignalPeerResolver" {
+			for _, el := range cl.Elts {
+				if kv, ok := el.(*ast.KeyValueExpr); ok {
+					resFields[exprString(hf.fset, kv.Key)] = exprString(hf.fset, kv.Value)
+				}
+			}
+		}
+		return true
+	})
+	emit("`handleSignalPeerResolver{t: …}`", "handleResolverT", resFields["t"])
+	emit("`handleSignalPeerResolver{sess: …}`", "handleResolverSess", resFields["sess"])
+
+	sb.WriteString("\n/-! ### webrtc.go: `addSessionTrackerRef` and who creates trackers -/\n\n")
+	wf, ar := wrtcMethod(files, "WebRTC", "addSessionTrackerRef")
+	if ar == nil {
+		return fmt.Errorf("webrtc.go: addSessionTrackerRef not found")
+	}
+	var arParams []string
+	for _, p := range ar.Type.Params.List {
+		for _, n := range p.Names {
+			arParams = append(arParams, n.Name)
+		}
+	}
+	emitL("parameters", "addRefParams", arParams)
+	// statement 0: parse; 1: if err != nil return err; 2: self check; 3: AddKeyRef; 4: return
+	var shape []string
+	for _, st := range ar.Body.List {
+		switch v := st.(type) {
+		case *ast.AssignStmt:
+			var l []string
+			for _, x := range v.Lhs {
+				l = append(l, exprString(wf.fset, x))
+			}
+			shape = append(shape, strings.Join(l, ", ")+" := "+exprString(wf.fset, v.Rhs[0]))
+		case *ast.IfStmt:
+			if v.Init != nil || v.Else != nil || !wrtcReturnsErr(wf.fset, v.Body) {
+				return fmt.Errorf("addSessionTrackerRef: a guard is not `if cond { return …, err }`")
+			}
+			shape = append(shape, "if "+exprString(wf.fset, v.Cond)+" return-error")
+		case *ast.ReturnStmt:
+			var l []string
+			for _, x := range v.Results {
+				l = append(l, exprString(wf.fset, x))
+			}
+			shape = append(shape, "return "+strings.Join(l, ", "))
+		default:
+			return fmt.Errorf("addSessionTrackerRef: unsupported statement %T", st)
+		}
+	}
+	emitL("the body, statement by statement (guards return a non-nil error)", "addRefBody", shape)
+
+	// package-wide scans (files carrying the verif build tag are listed separately)
+	var creators, verifCreators, addRefSites, literals, fieldAssigns []string
+	for i := range files {
+		fl := &files[i]
+		for _, d := range fl.f.Decls {
+			fd, ok := d.(*ast.FuncDecl)
+			if !ok || fd.Body == nil {
+				continue
+			}
+			ast.Inspect(fd.Body, func(x ast.Node) bool {
+				switch v := x.(type) {
+				case *ast.CallExpr:
+					s := exprString(fl.fset, v.Fun)
+					for _, m := range []string{"AddKeyRef", "SetKey", "SyncKeys"} {
+						if strings.HasSuffix(s, "sessionTrackers."+m) {
+							creators = append(creators, fd.Name.Name+": "+s+"("+strings.Join(wrtcArgs(fl.fset, v), ", ")+")")
+						}
+					}
+					if strings.HasSuffix(s, ".addSessionTrackerRef") {
+						site := fd.Name.Name + ": " + s + "(" + strings.Join(wrtcArgs(fl.fset, v), ", ") + ")"
+						if fl.verif {
+							verifCreators = append(verifCreators, site)
+						} else {
+							addRefSites = append(addRefSites, site)
+						}
+					}
+				case *ast.SelectorExpr:
+					if v.Sel.Name == "newSessionTracker" {
+						site := fd.Name.Name + ": " + exprString(fl.fset, v)
+						if fl.verif {
+							verifCreators = append(verifCreators, site)
+						} else {
+							creators = append(creators, site)
+						}
+					}
+				case *ast.CompositeLit:
+					if exprString(fl.fset, v.Type) == "sessionTracker" {
+						literals = append(literals, fd.Name.Name)
+					}
+				case *ast.AssignStmt:
+					for _, l := range v.Lhs {
+						if se, ok := l.(*ast.SelectorExpr); ok {
+							switch se.Sel.Name {
+							case "peerID", "peerPub", "offerer", "key":
+								fieldAssigns = append(fieldAssigns, fl.name+":"+fd.Name.Name+": "+exprString(fl.fset, l))
+							}
+						}
+					}
+				case *ast.IncDecStmt:
+					if se, ok := v.X.(*ast.SelectorExpr); ok {
+						switch se.Sel.Name {
+						case "peerID", "peerPub", "offerer", "key":
+							fieldAssigns = append(fieldAssigns, fl.name+":"+fd.Name.Name+": "+exprString(fl.fset, v.X))
+						}
+					}
+				}
+				return true
+			})
+		}
+	}
+	sort.Strings(creators)
+	sort.Strings(addRefSites)
+	sort.Strings(verifCreators)
+	emitL("every place in the package (outside verif-tagged files) that adds keys to `sessionTrackers` or refers to `newSessionTracker`", "trackerCreators", creators)
+	emitL("every call of `addSessionTrackerRef` outside verif-tagged files", "addRefCallSites", addRefSites)
+	emitL("the same references inside verif-tagged files (hooks)", "trackerCreatorsVerif", verifCreators)
+	emitL("functions containing a `sessionTracker{…}` literal", "trackerLiterals", literals)
+	emitL("assignments anywhere in the package to a field named peerID / peerPub / offerer / key", "packageFieldAssignments", fieldAssigns)
+	_, dp := wrtcMethod(files, "WebRTC", "DialPeer")
+	if dp == nil {
+		return fmt.Errorf("webrtc.go: DialPeer not found")
+	}
+	dpd := wrtcDefs(wf.fset, dp.Body)
+	v, err := one("DialPeer: peerIDStr", dpd["peerIDStr"])
+	if err != nil {
+		return err
+	}
+	emit("`peerIDStr := …` in DialPeer (peerID is its parameter)", "dialPeerIDStr", v)
+
+	sb.WriteString("\n/-! ### session.go: `executeXmitSignal`, `execute`, `executeLink` -/\n\n")
+	sf, xs := wrtcMethod(files, "sessionTracker", "executeXmitSignal")
+	if xs == nil {
+		return fmt.Errorf("session.go: executeXmitSignal not found")
+	}
+	enc := wrtcCalls(sf.fset, xs.Body, "EncodeWebRtcSignal")
+	if len(enc) != 1 {
+		return fmt.Errorf("executeXmitSignal: expected one EncodeWebRtcSignal call")
+	}
+	emitL("arguments of `EncodeWebRtcSignal` in executeXmitSignal", "xmitEncodeArgs", wrtcArgs(sf.fset, enc[0]))
+	xd := wrtcDefs(sf.fset, xs.Body)
+	me, err := one("executeXmitSignal: msgEnc", xd["msgEnc"])
+	if err != nil {
+		return err
+	}
+	emit("`msgEnc, err := …`", "xmitMsgEnc", me)
+	snd := wrtcCalls(sf.fset, xs.Body, "Send")
+	if len(snd) != 1 {
+		return fmt.Errorf("executeXmitSignal: expected one Send call")
+	}
+	emit("the transmission", "xmitSend", exprString(sf.fset, snd[0]))
+	_, ex := wrtcMethod(files, "sessionTracker", "execute")
+	if ex == nil {
+		return fmt.Errorf("session.go: execute not found")
+	}
+	esp := wrtcCalls(sf.fset, ex.Body, "signaling.ExSignalPeer")
+	if len(esp) != 1 {
+		return fmt.Errorf("execute: expected one ExSignalPeer call")
+	}
+	emitL("arguments of `signaling.ExSignalPeer` in execute", "exSignalPeerArgs", wrtcArgs(sf.fset, esp[0]))
+	var espLhs []string
+	ast.Inspect(ex.Body, func(x ast.Node) bool {
+		if as, ok := x.(*ast.AssignStmt); ok && len(as.Rhs) == 1 && as.Rhs[0] == ast.Expr(esp[0]) {
+			for _, l := range as.Lhs {
+				espLhs = append(espLhs, exprString(sf.fset, l))
+			}
+		}
+		return true
+	})
+	emitL("left-hand side of that call", "exSignalPeerLhs", espLhs)
+	var outSess []string
+	ast.Inspect(ex.Body, func(x ast.Node) bool {
+		if cl, ok := x.(*ast.CompositeLit); ok && exprString(sf.fset, cl.Type) == "outgoingSignal" {
+			for _, el := range cl.Elts {
+				if kv, ok := el.(*ast.KeyValueExpr); ok && exprString(sf.fset, kv.Key) == "sess" {
+					outSess = append(outSess, exprString(sf.fset, kv.Value))
+				}
+			}
+		}
+		return true
+	})
+	emitL("`outgoingSignal{sess: …}` in execute", "outgoingSignalSess", outSess)
+	// role enforcement on incoming signals
+	var reqGuard, sdpShape []string
+	ast.Inspect(ex.Body, func(x ast.Node) bool {
+		switch v := x.(type) {
+		case *ast.CaseClause:
+			if len(v.List) == 1 && exprString(sf.fset, v.List[0]) == "*WebRtcSignal_RequestOffer" && len(v.Body) > 0 {
+				if is, ok := v.Body[0].(*ast.IfStmt); ok && is.Init == nil && is.Else == nil && wrtcReturnsErr(sf.fset, is.Body) {
+					reqGuard = append(reqGuard, exprString(sf.fset, is.Cond))
+				}
+			}
+		case *ast.IfStmt:
+			// if s.offerer { if sdpType != "answer" {return err} } else { if sdpType != "offer" {return err} }
+			eb, ok := v.Else.(*ast.BlockStmt)
+			if !ok || len(v.Body.List) != 1 || len(eb.List) != 1 {
+				return true
+			}
+			a, ok1 := v.Body.List[0].(*ast.IfStmt)
+			b, ok2 := eb.List[0].(*ast.IfStmt)
+			if ok1 && ok2 && wrtcReturnsErr(sf.fset, a.Body) && wrtcReturnsErr(sf.fset, b.Body) && a.Else == nil && b.Else == nil {
+				sdpShape = append(sdpShape, "if "+exprString(sf.fset, v.Cond), "then reject if "+exprString(sf.fset, a.Cond), "else reject if "+exprString(sf.fset, b.Cond))
+			}
+		}
+		return true
+	})
+	emitL("first statement of `case *WebRtcSignal_RequestOffer:` — the condition under which the request is refused with an error", "requestOfferRefusedIf", reqGuard)
+	emitL("role enforcement on an incoming SDP", "sdpRoleEnforcement", sdpShape)
+	exd := wrtcDefs(sf.fset, ex.Body)
+	st, err := one("execute: sdpType", exd["sdpType"])
+	if err != nil {
+		return err
+	}
+	emit("`sdpType := …`", "sdpTypeDef", st)
+	// executeLink: which branch listens and which dials; the remote address
+	_, el := wrtcMethod(files, "sessionTracker", "executeLink")
+	if el == nil {
+		return fmt.Errorf("session.go: executeLink not found")
+	}
+	var linkShape []string
+	ast.Inspect(el.Body, func(x ast.Node) bool {
+		is, ok := x.(*ast.IfStmt)
+		if !ok || is.Else == nil {
+			return true
+		}
+		eb, ok := is.Else.(*ast.BlockStmt)
+		if !ok {
+			return true
+		}
+		l := wrtcCalls(sf.fset, is.Body, "transport_quic.ListenSession")
+		d := wrtcCalls(sf.fset, eb, "transport_quic.DialSession")
+		if len(l) == 1 && len(d) == 1 {
+			linkShape = append(linkShape, "if "+exprString(sf.fset, is.Cond), "then ListenSession("+strings.Join(wrtcArgs(sf.fset, l[0]), ", ")+")", "else DialSession("+strings.Join(wrtcArgs(sf.fset, d[0]), ", ")+")")
+		}
+		return true
+	})
+	emitL("the Quic session construction in executeLink", "executeLinkShape", linkShape)
+	eld := wrtcDefs(sf.fset, el.Body)
+	ra, err := one("executeLink: remoteAddr", eld["remoteAddr"])
+	if err != nil {
+		return err
+	}
+	emit("`remoteAddr := …`", "executeLinkRemoteAddr", ra)
+	return nil
 }
